@@ -85,11 +85,17 @@ type Encoder struct {
 	Events [][]byte
 	FailAt int // fail the FailAt-th Encode (1-based); 0 = never
 	n      int
+	// Point, when set, is called around every Encode (a scheduling point for
+	// controlled-schedule runs).
+	Point func() func()
 }
 
 var ErrInjected = fmt.Errorf("verif: injected encoder failure")
 
 func (e *Encoder) Encode(v any) error {
+	if e.Point != nil {
+		defer e.Point()()
+	}
 	e.mu.Lock()
 	defer e.mu.Unlock()
 	e.n++
@@ -488,4 +494,25 @@ func Replay(hist []Call, seed int64, withState bool) (recs []Rec, panicked any) 
 		recs = append(recs, r)
 	}
 	return recs, nil
+}
+
+// Prepare builds the concrete arguments of a call now and returns the closure
+// that performs it later (for concurrent programs: nothing of the World is
+// written while threads run).
+func (w *World) Prepare(c Call) func() error {
+	switch c.K {
+	case "login":
+		l := w.MakeLogin(c.ID, c.Pid)
+		return func() error { return w.T.RemoteLogin(l) }
+	case "audit":
+		ev := w.MakeEvent(c)
+		return func() error { return w.T.AuditdEvent(ev) }
+	case "cleanS":
+		far := time.Now().Add(time.Hour)
+		return func() error { w.T.DeleteUsersWithoutLoginsBefore(far); return nil }
+	case "cleanL":
+		far := time.Now().Add(time.Hour)
+		return func() error { w.T.DeleteRemoteUserLoginsBefore(far); return nil }
+	}
+	return func() error { return fmt.Errorf("unknown call kind %q", c.K) }
 }
